@@ -15,34 +15,34 @@
 EXTENDS KeyCache, Json, IOUtils, FiniteSetsExt
 T_Rks == {"rk1", "rk2"}
 T_SDs == {"sdA", "sdB"}
-T_L0s == {1, 2}
+T_L0s == {1, 2, 3}
 T_Pos == {<<0, 0>>}
 T_Ops == {"o1"}
-T_Now == <<10, 0>>
+T_Clock == <<[l0 |-> 2, pos |-> <<10, 0>>]>>
 T_Kinds == {"rpc"}
 T_Sync == {TRUE}
 TInit == Init
 TNext == UNCHANGED vars
 
 NoOp == [kind |-> "-", rk |-> NoRk, sd |-> "-", l0 |-> -1, pos |-> NoPos, mustNot |-> FALSE, predict |-> FALSE,
-         rpc |-> FALSE, reply |-> NoEntry, open |-> FALSE, now |-> NoPos]
+         rpc |-> FALSE, reply |-> NoEntry, open |-> FALSE, at |-> <<-1, -1, -1>>]
 
 State0(tr) == [loaded |-> {}, cache |-> [t \in Triples |-> NoEntry], obtained |-> [t \in Triples |-> NoPos],
                ops |-> [o \in {tr.events[i].o : i \in {j \in 1 .. Len(tr.events) : tr.events[j].ev = "begin"}} |-> NoOp],
-               fails |-> {}, drift |-> 0]
+               fails |-> {}, drift |-> 0, nowL0 |-> tr.nowl0, now |-> <<tr.now[1], tr.now[2]>>]
 
 Fail(s, c) == [s EXCEPT !.fails = @ \cup {c}]
 Pos(p) == <<p[1], p[2]>>
 
 OnBegin(s, tr, e) ==
   LET named == e.kind = "unprotect" \/ e.rk # NoRk
-      t == IF e.kind = "unprotect" THEN <<e.rk, e.sd, e.l0>> ELSE <<e.rk, e.sd, NowL0>>
-      p == IF e.kind = "unprotect" THEN Pos(e.pos) ELSE Pos(tr.now)
+      t == IF e.kind = "unprotect" THEN <<e.rk, e.sd, e.l0>> ELSE <<e.rk, e.sd, s.nowL0>>
+      p == IF e.kind = "unprotect" THEN Pos(e.pos) ELSE s.now
       lk == IF named THEN LookupIn(s.cache, s.loaded, t, p) ELSE <<FALSE, NoEntry, s.cache>>
   IN [s EXCEPT !.cache = lk[3],
                !.ops[e.o] = [NoOp EXCEPT !.kind = e.kind, !.rk = e.rk, !.sd = e.sd, !.l0 = e.l0, !.pos = Pos(e.pos),
                                          !.mustNot = named /\ CoversIn(s.obtained, t, p),
-                                         !.predict = ~lk[1], !.open = TRUE, !.now = Pos(tr.now)]]
+                                         !.predict = ~lk[1], !.open = TRUE, !.at = <<s.nowL0, s.now[1], s.now[2]>>]]
 
 OnRpc(s, e) ==
   LET op == s.ops[e.o]
@@ -58,8 +58,9 @@ OnRpc(s, e) ==
 OnReply(s, tr, e) ==
   LET op == s.ops[e.o]
       rk == IF op.rk = NoRk THEN tr.defrk ELSE op.rk
-      id == IF op.kind = "unprotect" THEN <<rk, op.sd, op.l0>> ELSE <<rk, op.sd, NowL0>>
-  IN [s EXCEPT !.ops[e.o].reply = [pos |-> Pos(e.pos), src |-> e.k, id |-> id]]
+      id == IF op.kind = "unprotect" THEN <<rk, op.sd, op.l0>> ELSE <<rk, op.sd, s.nowL0>>
+  IN [s EXCEPT !.ops[e.o].reply = [pos |-> Pos(e.pos), src |-> e.k, id |-> id],
+               !.ops[e.o].at = IF op.kind = "protect" THEN <<s.nowL0, s.now[1], s.now[2]>> ELSE @]
 
 OnEnd(s, tr, e) ==
   LET op == s.ops[e.o]
@@ -75,7 +76,7 @@ OnEnd(s, tr, e) ==
       s4 == IF op.kind = "protect" /\ e.res # "blob_ok" /\ e.res \notin {"budget", "hang"}
               THEN Fail(s3, "protect_blob_does_not_decrypt_with_fresh_cache") ELSE s3
       s5 == IF op.kind = "protect" /\ e.res = "blob_ok" /\
-               (e.named # <<rk, op.sd, NowL0, tr.now[1], tr.now[2]>>)
+               (e.named # <<rk, op.sd, op.at[1], op.at[2], op.at[3]>>)
               THEN Fail(s4, "protect_names_wrong_key") ELSE s4
       s6 == IF op.predict /\ ~op.rpc /\ e.res \in {"plain_ok", "blob_ok"} THEN [s5 EXCEPT !.drift = @ + 1] ELSE s5
   IN [s6 EXCEPT !.cache = IF stored THEN StoreIn(@, rep) ELSE @,
@@ -84,6 +85,7 @@ OnEnd(s, tr, e) ==
 
 Step(s, tr, e) ==
   CASE e.ev = "load"  -> [s EXCEPT !.loaded = @ \cup {e.rk}]
+    [] e.ev = "tick"  -> [s EXCEPT !.nowL0 = e.l0, !.now = Pos(e.pos)]
     [] e.ev = "begin" -> OnBegin(s, tr, e)
     [] e.ev = "rpc"   -> OnRpc(s, e)
     [] e.ev = "reply" -> OnReply(s, tr, e)
